@@ -80,6 +80,7 @@ pub fn gen_s1(focus: &str, seed: u64) -> S1Scenario {
         undiscoverable: false,
         boundary: true,
         ignored: true,
+        many_props: matches!(focus, "C02" | "C03" | "C11" | "C12"),
     };
     // which kind of run is this?
     let mode = match focus {
@@ -115,6 +116,10 @@ pub fn gen_s1(focus: &str, seed: u64) -> S1Scenario {
         o.undiscoverable = true;
         o.min_props = o.min_props.max(0);
     }
+    let widefan = matches!(focus, "C13" | "C01") && matches!(mode, "bfs1" | "exhaustive") && rng.chance(1, 2000);
+    if widefan {
+        o.shapes = vec!["widefan"];
+    }
     let mut graph = gen_graph(&mut rng, &o);
     if focus == "C12" && ((matches!(mode, "mixed" | "depth") && rng.chance(1, 3)) || (mode == "target" && rng.chance(1, 2))) {
         // several initial states outside the boundary (they must not count as generated states)
@@ -132,6 +137,10 @@ pub fn gen_s1(focus: &str, seed: u64) -> S1Scenario {
         threads = 2 + rng.usize_below(3);
     }
     let mut sched = gen_sched(&mut rng, 400_000);
+    if widefan {
+        sched.budget = 20_000_000;
+        sched.block_size = *rng.pick(&[0usize, 0, 64, 1500]);
+    }
     if focus == "C05" {
         sched.block_size = *rng.pick(&[1usize, 1, 2, 3, 5, 8]);
     }
@@ -361,6 +370,11 @@ pub fn gen_s1(focus: &str, seed: u64) -> S1Scenario {
     } else {
         vec![]
     };
+    if widefan {
+        // rebuilding the path shown to the visitor is linear in the fan-out (library code), so the
+        // visitor makes a wide-fan run quadratic: keep it for the narrower fans only, sometimes
+        visitor = graph.n <= 4_300 && rng.chance(1, 2);
+    }
     let chooser = if rng.chance(1, 2) { ChooserKind::Uniform } else { ChooserKind::Adversarial };
     // wait for the checker through the reporting variants of join in some runs
     let join_mode = if !drop_without_join && matches!(focus, "C02" | "C03" | "C05" | "C12") && rng.chance(1, 4) { 1 + rng.below(2) as u8 } else { 0 };
